@@ -354,7 +354,7 @@ fam(Family("scopes", {
           "(do (var x 1) (def f (fn [] (set x (+ x 1)))) (f) x)", "(tuple x (do (var x 5) (set x (+ x 1))) x)",
           "(do (def a 3) (def a (+ a 1)) a)", "(if (def p $e) p :no)", "(do (if true (def a 9)) a)",
           "(upscope (def b $e) b)", "(while (def p (< x 103)) (set x (+ x 1)))"],
-}, quick=3, thorough=4, extra=5, ctx_thorough=ALL_CTX))
+}, quick=3, thorough=4, extra=5, ctx_quick=CORE_CTX, ctx_thorough=ALL_CTX))
 
 
 # ---- data: constructors, splice, indexed access, put / set of a field, keywords and structures as functions
